@@ -130,7 +130,9 @@ Proof.
     try reflexivity; try discriminate; try (vm_compute; tauto); try (vm_compute; lia); try (vm_compute; intuition discriminate).
 Qed.
 
-(* Nesting.  Declaration trees - functions, variables (`T name ;`), includes (`#include <path>`) and forward declarations (`class X ;`, which is
+(* Nesting.  Declaration trees - functions, variables (`T name ;`), includes (`#include <path>`), enumerations
+   (`enum Name { A , B } ;`: the two-word keywords `enum class` / `enum struct` are tried on the same text and fail unless the
+   name IS `class` / `struct` - `enum classy` is an enumeration named classy) and forward declarations (`class X ;`, which is
    also a well-formed variable declaration: the alternation keeps the alternative listed first) inside namespaces nested to any depth (below the constructors' depth limit
    of 200 levels) - printed with one blank before every token, come back from Module.parseString as exactly that tree:
    the namespace rule is chosen by the alternation (every other alternative fails on `namespace name {`: a function
@@ -143,7 +145,7 @@ Print Assumptions C01_items_roundtrip.
 
 Definition sample_tree : list item :=
   [ IFn (TPlain (tn [] "void") false PNone true, "f", [(TPlain (tn ["gtsam"] "Pose3") true PRef false, "p")]);
-    IInc "gtsam/geometry/Pose3.h"; IFwd false "Later";
+    IInc "gtsam/geometry/Pose3.h"; IFwd false "Later"; IEnum "classy" ["Red"; "Green"; "NONE"];
     INs "outer" [ INs "inner" [ IFn (sample_type, "make", [(sample_type, "x")]); IVar sample_type "origin" ]; INs "empty" [ IFwd true "Base" ];
                   IFn (TPlain (tn [] "Key") false PNone false, "g", []) ];
     IFn (TPlain (tn [] "double") false PNone true, "h", []) ]%string.
@@ -151,6 +153,7 @@ Example C01_items_nonvacuous :
   (forall i, In i sample_tree -> idepth i < depth_fuel /\ wf_item i) /\
   print_items sample_tree =
     (" void f ( const gtsam :: Pose3 & p ) ; #include <gtsam/geometry/Pose3.h> class Later ;" ++
+     " enum classy { Red , Green , NONE } ;" ++
      " namespace outer { namespace inner {" ++
      " const gtsam :: Foo < int , std :: vector < Bar * > , const ns :: a :: K < double & > @ > & make" ++
      " ( const gtsam :: Foo < int , std :: vector < Bar * > , const ns :: a :: K < double & > @ > & x ) ;" ++
